@@ -89,6 +89,10 @@ def check(md, src):
             if content.endswith("\n"):
                 cls = cls[:-1]
             first = b + 1 if t.type == "fence" else b
+            # line for line: as many content lines as the map has lines (a fence: minus the opening line and, if present, the closing one)
+            want = (e - b,) if t.type != "fence" else (e - b - 1, e - b - 2)
+            if len(cls) not in want and not (t.type == "fence" and e - b == 1 and not cls):
+                return ("content-line-count", t.type, t.map, len(cls))
             for i, cl in enumerate(cls):
                 if first + i >= len(lines):
                     return ("content-beyond-source", t.type, t.map)
